@@ -2,7 +2,8 @@
 import ast
 
 from ..model import AnalysisError
-from ..lib import FV, decode_new, decode_call, phi_members, is_sym, is_const, is_str, strip_stores, stores_of
+from ..lib import (FV, decode_new, decode_call, phi_members, is_sym, is_const, is_str, strip_stores, stores_of,
+                   find_assign, find_assigns, simple_assigns, local_term)
 from ..cfg import always_raises, walk_stmts
 from ..terms import r_neg, r_mul, r_div, r_sub, r_add
 from . import common as cm
@@ -202,9 +203,20 @@ def d3_tables(chk, repo):
         area = v.spec("0.5 * field.mesh.cell[0] * field.mesh.cell[1]")
         okq = v.eq(idx, v.spec("(i, j)", env=env)) and v.ctx.mentions(val, area.single_atom() and area or area) if False else \
             v.eq(idx, v.spec("(i, j)", env=env))
-        ch = v.ev.term(ast.Name(id="charge", ctx=ast.Load()), at=sts[0])
-        tc = v.ev.term(ast.Name(id="triangle_count", ctx=ast.Load()), at=sts[0])
-        okq = okq and v.eq(val, r_div(ch, r_mul(area, tc)))
+        # charge accumulates the solid angles, the counter is incremented by one next to each of them: find both by role
+        ch_name = tc_name = None
+        for st_ in walk_stmts(lp.body):
+            if isinstance(st_, ast.AugAssign) and isinstance(st_.target, ast.Name) and isinstance(st_.op, ast.Add):
+                if isinstance(st_.value, ast.Call) and ast.unparse(st_.value.func).endswith("bergluescher_angle"):
+                    ch_name = st_.target.id
+                elif isinstance(st_.value, ast.Constant) and st_.value.value == 1:
+                    tc_name = st_.target.id
+        if ch_name and tc_name:
+            ch = local_term(v, ch_name, sts[0])
+            tc = local_term(v, tc_name, sts[0])
+            okq = okq and v.eq(val, r_div(ch, r_mul(area, tc)))
+        else:
+            okq = False
     chk.ob(T + "topological_charge_density::density-normalisation", okq, "C19.D3",
            "q[i, j] must be charge / (area * triangle_count) with area = cell[0]*cell[1]/2", v.f, sts[0] if sts else lp)
     vcond = [s for s in lp.body if isinstance(s, ast.If)]
@@ -330,15 +342,14 @@ def d5_bloch_points(chk, repo):
     want = v.spec("(F.integrate(direction=A[0]).integrate(direction=A[1]).integrate(direction=direction, cumulative=True) / (4 * np.pi))"
                   ".array.squeeze().round()", env={"F": F, "A": av})
     got = None
-    for st in v.stmts():
-        if isinstance(st, ast.Assign) and isinstance(st.targets[0], ast.Name) and st.targets[0].id == "bp_number" and got is None:
-            got = (st, v.term(st.value, at=st))
+    fb = find_assign(v, lambda t_, s_: (decode_call(v.ctx, t_) or ("",))[0] == ".round")
+    if fb:
+        got = (fb[0], fb[2])
     chk.ob(T + "count_bps::cumulative-charge", got is not None and v.eq(got[1], want), "C19.D5",
            f"bp_number = {v.show(got[1])[:200] if got else None}", v.f, got[0] if got else None)
     okc = False
-    for st in v.stmts():
-        if isinstance(st, ast.Assign) and isinstance(st.targets[0], ast.Name) and st.targets[0].id == "bp_count" and got:
-            okc = v.eq(v.term(st.value, at=st), v.spec("B[1:] - B[:-1]", env={"B": got[1]}))
+    if got:
+        okc = find_assign(v, lambda t_, s_: v.eq(t_, v.spec("B[1:] - B[:-1]", env={"B": got[1]}))) is not None
     chk.ob(T + "count_bps::differences", okc, "C19.D5", "bp_count must be bp_number[1:] - bp_number[:-1]", v.f)
     r, t = _single_return(v)
     sts = {v.ctx.head_of(i)[1] if (v.ctx.head_of(i) or ("",))[0] == "str" else "pattern": val for i, val in stores_of(v.ctx, t)}
@@ -414,7 +425,9 @@ def d6_demag(chk, repo):
            "value += (-1)**sum(i) * f(x + (i0-i3) dx, y + (i1-i4) dy, z + (i2-i5) dz) over the 64 corner combinations, with dx,dy,dz "
            "the cell lengths given for x,y,z in that order", e.f)
     r2, t2 = _single_return(e)
-    val = e.ev.term(ast.Name(id="value", ctx=ast.Load()), at=r2)
+    acc = [s_.target.id for s_ in e.stmts() if isinstance(s_, ast.AugAssign) and isinstance(s_.target, ast.Name)]
+    chk.require(acc, "_N_element: accumulator vanished")
+    val = local_term(e, acc[0], r2)
     okn = e.eq(t2, r_div(r_neg(val), e.spec("4 * np.pi * np.prod(c)", env={"c": e.spec(e.f.params[3])}))) or \
         e.eq(t2, r_div(r_neg(val), e.spec("4 * np.pi * np.prod(c.cell)", env={"c": e.spec(e.f.params[3])})))
     chk.ob(T + "_N_element::normalisation", okn, "C19.D6", "result must be -value / (4 pi * cell volume)", e.f, r2)
@@ -439,17 +452,26 @@ def d6_demag(chk, repo):
     want_h = {"hx_fft": "tensor.ft_xx * M.ft_x + tensor.ft_xy * M.ft_y + tensor.ft_xz * M.ft_z",
               "hy_fft": "tensor.ft_xy * M.ft_x + tensor.ft_yy * M.ft_y + tensor.ft_yz * M.ft_z",
               "hz_fft": "tensor.ft_xz * M.ft_x + tensor.ft_yz * M.ft_y + tensor.ft_zz * M.ft_z"}
-    M = None
-    for st in h.stmts():
-        if isinstance(st, ast.Assign) and isinstance(st.targets[0], ast.Name) and st.targets[0].id == "m_fft":
-            M = h.term(st.value, at=st)
-    chk.require(M is not None, "demag_field: m_fft vanished")
-    for nm, sp in want_h.items():
-        ok = False
-        for st in h.stmts():
-            if isinstance(st, ast.Assign) and isinstance(st.targets[0], ast.Name) and st.targets[0].id == nm:
-                ok = h.eq(h.term(st.value, at=st), h.spec(sp, env={"M": M}))
-        chk.ob(T + f"demag_field::{nm}", ok, "C19.D6", f"{nm} must be {sp} (symmetric tensor contraction)", h.f)
+    fm = find_assign(h, lambda t_, s_: (decode_call(h.ctx, t_) or ("",))[0] == "Field.fftn")
+    chk.require(fm is not None, "demag_field: the transformed magnetisation vanished")
+    M = fm[2]
+    # the three field components in stacking order
+    stacked = None
+    for st_, nm_, t_ in simple_assigns(h):
+        if h.ctx.head_of(t_) == ("binop", "LShift"):
+            stacked = t_
+            break
+    comps = []
+    cur = stacked
+    while cur is not None and h.ctx.head_of(cur) == ("binop", "LShift"):
+        a_, b_ = h.ctx.args_of(cur)
+        comps.insert(0, b_)
+        cur = a_
+    if cur is not None:
+        comps.insert(0, cur)
+    for i_, (nm, sp) in enumerate(want_h.items()):
+        ok = len(comps) == 3 and h.eq(comps[i_], h.spec(sp, env={"M": M}))
+        chk.ob(T + f"demag_field::{nm}", ok, "C19.D6", f"component {i_} of the stacked field must be {sp} (symmetric tensor contraction)", h.f)
     okp = h.eq(M, h.spec("m.pad({d: (0, m.mesh.n[i] - 1) for d, i in zip(['x', 'y', 'z'], range(3))}, mode='constant').fftn()"))
     chk.ob(T + "demag_field::zero-padding", okp, "C19.D6",
            "the magnetisation must be zero-padded by n-1 cells after every axis before the transform", h.f)
